@@ -72,6 +72,9 @@ func structOf(t types.Type) *types.Struct {
 // `owner` can be referred to from the cell package.  For an unnamed struct the
 // decision is inherited from the enclosing named type (inherited).
 func (p *Planner) Accessible(owner types.Type, inherited *types.Package, name string) bool {
+	if name == "_" {
+		return false // a blank member cannot be selected by anyone
+	}
 	if ast.IsExported(name) {
 		return true
 	}
